@@ -347,7 +347,7 @@ func c18Run(c *h.Ctx) {
 			if fresh {
 				last[gs.GameID] = gs.UpdatedAt
 			}
-			gp := t.GamePlayerIndex(pl.ID)
+			gp := h.GameIdx(t, pl.ID)
 			if gp < 0 || gp >= len(gs.Players) || len(gs.Players[gp].AllowedActions) == 0 {
 				return
 			}
